@@ -537,6 +537,13 @@ func (g *c08Gen) family(f int) {
 			g.reqs = append(g.reqs, inboxReq(g.id(), Pick(r, boxes), hostA, g.remoteAct("Create", J{"to": to,
 				"object": J{"type": "Note", "id": fmt.Sprintf("%s/f%d", st.RNote, i), "attributedTo": st.Dave, "inReplyTo": st.Note1}})))
 		}
+	case 10: // a client Update of an owned object while peers like / announce it
+		obj := Pick(r, []string{st.Note1, st.Note2})
+		g.reqs = append(g.reqs, outboxReq(g.id(), st.Alice, hostA, J{"@context": asCtx, "type": "Update", "actor": st.Alice.ID, "to": st.Dave,
+			"object": J{"type": "Note", "id": obj, "content": "edited while liked"}}))
+		for i, n := 0, 1+r.Intn(2); i < n; i++ {
+			g.reqs = append(g.reqs, inboxReq(g.id(), Pick(r, boxes), hostA, g.remoteAct(Pick(r, []string{"Like", "Announce"}), J{"object": obj})))
+		}
 	case 9: // readers
 		g.reqs = append(g.reqs, getReq(g.id(), Pick(r, []string{"getInbox", "getOutbox"}), st.Alice, hostA))
 	}
@@ -560,9 +567,9 @@ func genC08(r *Rng, tier string, k int) *RunSpec {
 	if tier == "thorough" {
 		maxReq = 5
 	}
-	g.family(r.Intn(9))
+	g.family(Pick(r, []int{0, 1, 2, 3, 4, 5, 6, 7, 8, 10}))
 	for len(g.reqs) < 2 || (len(g.reqs) < maxReq && r.Intn(3) == 0) {
-		g.family(r.Intn(10))
+		g.family(r.Intn(11))
 	}
 	if len(g.reqs) > maxReq {
 		g.reqs = g.reqs[:maxReq]
@@ -587,7 +594,7 @@ func genC08(r *Rng, tier string, k int) *RunSpec {
 func init() {
 	register(&PropDef{
 		ID: "C08", Level: "exploration", Engine: "fedsim",
-		Rule: "case = a seeded scenario of 2-3 (thorough: up to 5) concurrent requests on one server drawn from ten families (duplicate inbox POSTs, different activities to one inbox, one activity to two inboxes, Likes/Announces of one object, Follows with auto-accept, Accepts, Adds, client POSTs / Send, forwarding over the same collections in different orders, GET readers); " +
+		Rule: "case = a seeded scenario of 2-3 (thorough: up to 5) concurrent requests on one server drawn from eleven families (a client Update of an object while peers like it, duplicate inbox POSTs, different activities to one inbox, one activity to two inboxes, Likes/Announces of one object, Follows with auto-accept, Accepts, Adds, client POSTs / Send, forwarding over the same collections in different orders, GET readers); " +
 			"per case: all sequential permutations (<=3 requests; 6 sampled beyond) as reference, then seeded schedules (fifo, random walk, sticky, PCT with 1-3 priority change points) at seam granularity (Database, Transport, callbacks, clock reads, response writes; with the real HttpSigTransport in 1/6 of the cases also its goroutines and mutexes); network duplication of deliveries (net_dup); every third case a single-fault class (one seam call fails under a random schedule: everything must still complete), every fourth a crash class (the server dies at a random step, locks vanish, the database survives, the peers redeliver); " +
 			"oracles: completion (deadlock detection), per-collection multiset equality with some sequential execution, porcupine linearizability of inbox/outbox posts and reads, duplicate handling. distinct = distinct (task, seam kind, result class) event sequences, i.e. distinct interleavings at seam granularity.",
 		QuickCases:      64,
